@@ -438,13 +438,36 @@ fn live_icmp(ctx: &mut Ctx) {
             } else if r < 65 {
                 ops.push(LOp::Err(*ctx.rng.pick(&reqs), *ctx.rng.pick(&[3u8, 11, 12])));
             } else if r < 80 {
-                ops.push(LOp::Adv(*ctx.rng.pick(&[1u64, T_MS / 2, T_MS - 1, T_MS, T_MS + 1, 2 * T_MS])));
+                ops.push(LOp::Adv(*ctx.rng.pick(&[1u64, T_MS / 2, T_MS / 2 + 1, T_MS / 3, T_MS - 1, T_MS, T_MS + 1, 2 * T_MS])));
             } else {
                 ops.push(LOp::Take(ctx.rng.below(2) as usize));
             }
         }
         ops.push(LOp::Take(0));
         ops.push(LOp::Take(1));
+        // directed histories first: requests with staggered deadlines, replies that arrive after the deadline of
+        // an earlier request while a later one is still pending (every request must be forgotten at its own deadline)
+        let idh = id_base.wrapping_add(h as u16);
+        let directed: Vec<Vec<LOp>> = vec![
+            vec![
+                LOp::Req(0, idh, 0, 8), LOp::Take(0), LOp::Adv(T_MS / 2), LOp::Req(1, idh, 1, 8), LOp::Take(1), LOp::Adv(T_MS / 2 + 1),
+                LOp::Inj(0, 0), LOp::Take(0), LOp::Inj(3, 0), LOp::Take(1), LOp::Adv(T_MS / 2), LOp::Inj(3, 0), LOp::Inj(0, 0), LOp::Take(0), LOp::Take(1),
+            ],
+            vec![
+                LOp::Req(0, idh, 0, 0), LOp::Adv(T_MS - 1), LOp::Req(0, idh, 1, 0), LOp::Adv(1), LOp::Inj(0, 0), LOp::Take(0), LOp::Adv(1),
+                LOp::Inj(0, 0), LOp::Err(0, 3), LOp::Take(0), LOp::Adv(T_MS - 2), LOp::Inj(2, 0), LOp::Take(0), LOp::Adv(1), LOp::Inj(2, 0), LOp::Take(0),
+            ],
+            vec![
+                LOp::Req(0, idh, 0, 56), LOp::Adv(1000), LOp::Req(1, idh, 1, 56), LOp::Adv(1000), LOp::Req(0, idh, 2, 56), LOp::Adv(1000),
+                LOp::Req(1, idh, 3, 56), LOp::Take(0), LOp::Take(1), LOp::Adv(1), LOp::Inj(0, 0), LOp::Inj(2, 0), LOp::Take(0), LOp::Take(1),
+                LOp::Adv(1000), LOp::Inj(2, 0), LOp::Inj(4, 0), LOp::Take(0), LOp::Take(1), LOp::Adv(1000), LOp::Err(4, 11), LOp::Err(6, 11),
+                LOp::Take(0), LOp::Take(1),
+            ],
+        ];
+        if h < directed.len() {
+            ops = directed[h].clone();
+            ctx.stat("live_directed_staggered_deadlines");
+        }
         // ---- execute ----
         let settings = Settings::builder()
             .listen_address(("127.0.0.1", 1))
